@@ -149,6 +149,19 @@ CLAIMED.update({
               "5/C03", "partial: codecs, BOM handling, universal newlines, json.loads and float() are runtime library behaviour (exercised, not modelled); the whole-file reader composition is evaluated."),
 })
 
+CLAIMED.update({
+    "C16": _c("Proof: Props/C16.v shows, for every width and every value of the range, that samples -> bytes -> samples and bytes -> "
+              "samples -> bytes are identities; that every time maps to a byte offset that is a whole number of samples; that insert, "
+              "deleteSegment, replaceSegment, concatenate and getSubwav on the byte string -- and every history of them -- are exactly "
+              "the same edits on the list of samples (so nothing else moves or changes), the getSamples clause, duration = samples / "
+              "rate, and that insert followed by delete of the same stretch is the identity at every time that is not an exact tie "
+              "between two samples (the tie case is refuted by a witness and recorded as known finding F20).  Wav.frames after every "
+              "edit of random histories is compared with the byte-level model and judged against the list-of-samples specification "
+              "inside Coq; .wav files go through the real wave module.",
+              "Coq proof (refinement of the byte-level edits to a list-of-samples specification, induction over histories; arithmetic of round-half-even) + in-Coq differential correspondence",
+              "5/C16", "save/open/QueryWav file I/O (wave, struct) and binary64 rounding of time*rate are exercised, not modelled; times enter the model as the exact rational value of the float."),
+})
+
 PENDING = {}
 
 
